@@ -81,10 +81,15 @@ func (h *History) SetStart(t time.Time) { h.start = t }
 
 // Add appends an event, stamping sequence number and virtual time, and returns
 // its sequence number.
-func (h *History) Add(e Event) int {
+func (h *History) Add(e Event) int { return h.add(e, false) }
+
+// AddForce records an event even after Freeze (post-run oracle observations).
+func (h *History) AddForce(e Event) int { return h.add(e, true) }
+
+func (h *History) add(e Event, force bool) int {
 	h.mu.Lock()
 	defer h.mu.Unlock()
-	if h.frozen {
+	if h.frozen && !force {
 		return len(h.Events)
 	}
 	e.Seq = len(h.Events) + 1
@@ -116,6 +121,7 @@ func (h *History) Hash() string {
 		sort.SliceStable(seg, func(i, j int) bool { return chainKey(&seg[i]) < chainKey(&seg[j]) })
 		for _, e := range seg {
 			e.Seq = 0
+			e.Req = normID(e.Req)
 			fmt.Fprintln(d, e.String())
 		}
 	}
@@ -125,6 +131,7 @@ func (h *History) Hash() string {
 			flush(seg)
 			seg = seg[:0]
 			e.Seq = 0
+			e.Req = normID(e.Req)
 			fmt.Fprintln(d, e.String())
 			continue
 		}
@@ -134,12 +141,26 @@ func (h *History) Hash() string {
 	return hex.EncodeToString(d.Sum(nil))[:16]
 }
 
+// normID replaces proxy-generated (random) UUID request ids by a constant.
+func normID(id string) string {
+	if len(id) == 36 && id[8] == '-' && id[13] == '-' && id[18] == '-' && id[23] == '-' {
+		return "<uuid>"
+	}
+	return id
+}
+
 func chainKey(e *Event) string {
 	switch {
 	case e.Kind == "net.close": // both ends may close independently
 		return "o:" + e.Obj + ":" + e.Info
 	case e.Req != "":
-		return "r:" + e.Req
+		// client side, target side and network side of one request run in
+		// different goroutines; inside one step only each side is ordered
+		side := e.Kind
+		if i := strings.Index(side, "."); i > 0 {
+			side = side[:i]
+		}
+		return "r:" + normID(e.Req) + ":" + side
 	case e.Obj != "":
 		return "o:" + e.Obj
 	case e.Target != "":
